@@ -227,6 +227,9 @@ def probe_data_ops(build, cpus, workers=None):
     return acc
 
 
+PROBE_ABNORMAL = []      # (cpu, source, result) of probe runs that crashed / hung: filled by probe_ops
+
+
 def probe_ops(build, cpus, workers=None):
     """One asl run per CPU with one line per (candidate mnemonic, shape); a line without an error message is a
     statement the CPU accepts in that role.  -> {cpu: {"data": [...], "res": [...], "fill": [...], "dup": [...], "rep": [...]}}"""
@@ -246,8 +249,14 @@ def probe_ops(build, cpus, workers=None):
         jobs.append({"files": {"a.asm": src}, "cmd": ["asl", "-q", "a.asm"], "timeout": 30, "keep": 60000})
     res = c03run.run_jobs(build, jobs, workers)
     acc = {}
-    for cpu, r in zip(cpus, res):
-        if r["timeout"] or r["rc"] not in (0, 2):
+    del PROBE_ABNORMAL[:]
+    for cpu, (job, r) in zip(cpus, zip(jobs, res)):
+        if r["timeout"] or r["sig"] is not None or r["san"]:
+            # the probe source itself (one plain data statement per line) ended the assembler abnormally: that is
+            # a finding of its own, not a reason to leave the CPU out (checks/c03.py reports it)
+            PROBE_ABNORMAL.append((cpu, job["files"]["a.asm"], r))
+            continue
+        if r["rc"] not in (0, 2):
             continue                       # unknown CPU name / fatal: nothing is claimed about this CPU
         bad = set(int(m.group(1)) for m in re.finditer(r"a\.asm\((\d+)\)[^\n]*?(?:error|Fehler)", r["err"] + r["out"]))
         if 1 in bad:
